@@ -359,7 +359,12 @@ where
                                 ctid: self.ctid.to_owned(),
                             }),
                             payload,
-                            payload_text: Some(cap_str[loc_timestamp.1 + 1..].to_owned()),
+                            payload_text: Some({
+                                // skip the white space char after the timestamp (might be a non ascii one)
+                                let mut rest = cap_str[loc_timestamp.1..].chars();
+                                rest.next();
+                                rest.as_str().to_owned()
+                            }),
                             lifecycle: 0,
                         };
 
@@ -456,7 +461,12 @@ where
                                     ctid: self.ctid.to_owned(),
                                 }),
                                 payload,
-                                payload_text: Some(cap_str[loc_timestamp.1 + 1..].to_owned()),
+                                payload_text: Some({
+                                // skip the white space char after the timestamp (might be a non ascii one)
+                                let mut rest = cap_str[loc_timestamp.1..].chars();
+                                rest.next();
+                                rest.as_str().to_owned()
+                            }),
                                 lifecycle: 0,
                             };
 
